@@ -130,9 +130,11 @@ func extractHasVals(h *gripql.GraphStatement_Has) []string {
 				vals = []string{l}
 			}
 		case gripql.Condition_WITHIN:
-			v := val.([]interface{})
+			v, _ := val.([]interface{})
 			for _, x := range v {
-				vals = append(vals, x.(string))
+				if l, ok := x.(string); ok {
+					vals = append(vals, l)
+				}
 			}
 		default:
 			// do nothing
